@@ -97,6 +97,29 @@ def run(ctx: Ctx):
                  or (n.kind == "iter" and d in g.reach([x for l, x in n.succ if l == "iter"], blocked=[n]))]
         if not loops or "self.connections" not in ast.unparse(loops[0].ast.iter):
             ctx.fail(cons + "#all", g.loc(d), "the DPR is not sent for every connection of the node")
+    # connections that have not completed their capabilities exchange when stop() is called get
+    # no DPR (there is nobody to take leave of) - they are closed, or they complete the exchange
+    # afterwards, are served like on a running node and keep stop() waiting for its timeout
+    cons_u = "stop:unfinished-handshakes-closed"
+    ctx.inst(cons_u)
+    CONNECTING_, CONNECTED_ = P("PEER_CONNECTING"), P("PEER_CONNECTED")
+    closes_u = []
+    for n in g.nodes:
+        for c in n.calls():
+            if A.call_name(c) == "self.close_connection_socket" and c.args:
+                cv_ = A.dotted(c.args[0])
+                fx = must_facts(g, at, n)
+                if any(f_[0] == f"{cv_}.state" and f_[3] is True and (
+                        (f_[1] == "in" and {CONNECTING_, CONNECTED_} <= set(f_[2] if isinstance(f_[2], (set, frozenset, tuple, list)) else ()))
+                        or (f_[1] == "==" and f_[2] in (CONNECTING_, CONNECTED_))) for f_ in fx) \
+                        or any(f_[0] == f"{cv_}.state" and f_[1] == "in" and f_[3] is False
+                               and set(f_[2] if isinstance(f_[2], (set, frozenset, tuple, list)) else ()) >= set(READY) for f_ in fx):
+                    closes_u.append(n)
+    if not closes_u:
+        ctx.fail(cons_u, f.loc(), "stop() sends DPRs to the ready connections and leaves those that are "
+                 "still connecting or waiting for their CER/CEA alone: they complete the exchange "
+                 "while the node is stopping, are served, never get a DPR, and stop() waits its whole "
+                 "timeout for them (their handshake timers are off while stopping)")
     # bounded wait
     cons = "stop:bounded-wait"
     ctx.inst(cons)
@@ -232,6 +255,42 @@ def run(ctx: Ctx):
                 ctx.fail(cons, gg.loc(a_), f"`{a_.text(60)}` can run while the node is stopping")
                 break
 
+    # the flag itself: stop() sets it on the caller's thread, the I/O thread tests it and acts
+    # later (dials, sends a DWR) - test and action are one step only under a common lock
+    cons_s = "Node._stopping:check-then-act"
+    ctx.inst(cons_s)
+    st_f = nc.methods.get("stop")
+    set_nodes = [x for x in ast.walk(st_f.node) if isinstance(x, ast.Assign)
+                 and any(A.dotted(t) == "self._stopping" for t in x.targets)]
+    par_s = A.parents(st_f.node)
+
+    def _locked_in(fn, node):
+        par = A.parents(fn.node)
+        x = node
+        while x in par:
+            x = par[x]
+            if isinstance(x, ast.With) and any("lock" in ast.unparse(i.context_expr).lower() for i in x.items):
+                return ast.unparse(x.items[0].context_expr)
+        return None
+    set_lock = _locked_in(st_f, set_nodes[0]) if set_nodes else None
+    racy = []
+    for nm_ in ("_reconnect_peers", "_check_timers", "_add_peer_connection"):
+        fn_ = nc.methods.get(nm_)
+        if fn_ is None:
+            continue
+        tests = [x for x in ast.walk(fn_.node) if isinstance(x, ast.If) and "self._stopping" in ast.unparse(x.test)]
+        for t_ in tests:
+            lk = _locked_in(fn_, t_)
+            # the guarded action (dial / DWR / registration) follows the test in the same function
+            if lk is None or lk != set_lock:
+                racy.append((fn_, t_))
+    if set_nodes and racy:
+        fn_, t_ = racy[0]
+        ctx.fail(cons_s, fn_.loc(t_), f"`self._stopping` is set by stop() on the caller's thread"
+                 f"{'' if set_lock is None else ' under ' + set_lock} and tested without that lock in "
+                 f"{sorted({f_.name for f_, _ in racy})} on the I/O thread, which acts afterwards: a stop() "
+                 f"that begins between the test and the action does not prevent it - a peer is dialled "
+                 f"(or a DWR is sent after the DPR) while the node is stopping")
     # ---------------- R3 close sites of the I/O loop -------------------------------------------------
     ctx.rule("C18-R3", "the I/O loop closes cleanly only CLOSED connections or CLOSING ones with an "
                        "empty write buffer, at the interrupt, write-ready and after-send sites; the "
@@ -408,6 +467,8 @@ def run(ctx: Ctx):
     # the interrupt site only sees the wake-ups that are actually taken from the pipe
     from .common_node import wakeup_tokens_all_handled
     wakeup_tokens_all_handled(ctx, "C18-R3b")
+    from .common_node import close_is_thread_tolerant
+    close_is_thread_tolerant(ctx, "C18-R3c")
     ctx.cur("C18-R3")
     # stop branch
     cons = "_handle_connections:stop-branch"
